@@ -306,6 +306,13 @@ def check_write(case: dict) -> list[tuple[str, str]]:
         from pyjelly.serialize import flows  # noqa: PLC0415
 
         how = case["big"]
+        if how == "frame-2m":
+            # the middle graph makes one frame of 2.4 MB (its length prefix has four bytes)
+            mid = [(I(f"http://a/m{i}"), I("http://a/p"), L("w" * 1000 + str(i)))
+                   for i in range(2400)]
+            inputs = [big_group(3, arity, "f"),
+                      mid if arity == 3 else [(*st, I("http://a/gm")) for st in mid],
+                      big_group(2, arity, "l")]
         if how == "explicit-flow":
             flow = flows.GraphsFrameFlow() if arity == 3 else flows.DatasetsFrameFlow()
             opts = DR.make_options(cls, (4000, 150, 32), 250, True, 0, generalized=False,
@@ -334,7 +341,7 @@ def check_write(case: dict) -> list[tuple[str, str]]:
 
     def shared(ser, containers):
         # one explicit stream object of the given class serves every container in turn
-        scls = via.split("-")[1]
+        scls = via.split("-")[1].split("+")[0]
         o2 = DR.make_options(scls, (8, 2, 0), 250, True, lt, generalized=False, rdf_star=False)
         stream = DR.g_stream(scls, o2) if api == "generic" else DR.r_stream(scls, o2)
         for c in containers:
@@ -360,6 +367,9 @@ def check_write(case: dict) -> list[tuple[str, str]]:
             import rdflib  # noqa: PLC0415
 
             ds = rdflib.Dataset()
+            if via == "shared-graph+empty":
+                # a registered but empty named graph whose name brings a namespace of its own
+                ds.graph(rdflib.URIRef(f"http://empty{len(g)}.example/ns#g"))
             for pfx, iri in binds:
                 ds.bind(pfx, rdflib.URIRef(iri), override=True, replace=True)
             for st in g:
@@ -426,7 +436,9 @@ def write_shard(job) -> dict:
                 acc.violation({"side": "write", "fail": kind, "api": api, "ns": True},
                               f"{msg} case={c2}", c2)
         if len(sym) <= 2 and any(sym):
-            for via in (("shared-triple",) if arity == 3 else ("shared-quad", "shared-graph")) + (
+            for via in (("shared-triple",) if arity == 3 else (
+                    "shared-quad", "shared-graph") + (("shared-graph+empty",) if api == "rdflib"
+                                                      else ())) + (
                     "frames-kept", "list-input"):
                 c2 = {**case, "via": via}
                 acc.evals += 1
@@ -439,7 +451,7 @@ def write_shard(job) -> dict:
                                   f"{msg} case={c2}", c2)
     if lo == 0:
         subs = ("subtype-13",) if arity == 3 else ("subtype-14", "subtype-114")
-        for how in ("explicit-flow", "logical-type", *subs):
+        for how in ("explicit-flow", "logical-type", "frame-2m", *subs):
             case = {"side": "write", "api": api, "arity": arity, "groups": [], "big": how}
             acc.evals += 1
             acc.nontrivial += 1
